@@ -41,9 +41,14 @@ ENV = {"ASAN_OPTIONS": "detect_leaks=0:abort_on_error=0", "UBSAN_OPTIONS": "prin
 def cfg_line(c):
     archs = ",".join("%s:%d:%s:%s:%d" % (k, n, "-" if cs is None else cs, pat, 1 if ex else 0)
                      for (k, n, cs, pat, ex) in c["archs"])
-    return "cfg id=%d cap=%d defcs=%d job=%s filter=%s mode=%s T=%s archs=%s" % (
+    line = "cfg id=%d cap=%d defcs=%d job=%s filter=%s mode=%s T=%s archs=%s" % (
         c["id"], c["cap"], c["defcs"], c["job"], c["filter"], c["mode"],
         "-" if c["T"] is None else c["T"], archs)
+    if c.get("nreq"):
+        line += " nreq=" + c["nreq"]
+    if c.get("pre"):
+        line += " pre=" + ";".join(c["pre"])
+    return line
 
 
 def parse_cfg_line(line):
@@ -60,6 +65,10 @@ def parse_cfg_line(line):
             c[k] = v
         elif k == "T":
             c["T"] = None if v == "-" else int(v)
+        elif k == "nreq":
+            c["nreq"] = v
+        elif k == "pre":
+            c["pre"] = [x for x in v.split(";") if x]
         elif k == "archs":
             for item in v.split(","):
                 if not item:
@@ -69,12 +78,25 @@ def parse_cfg_line(line):
     return c
 
 
-def job_req(job):
-    return ([A], [0]) if job in JOBS_SHARED else ([A], [])
+DESC_ID = {"A": A, "B": B, "M": M1}
+
+
+def observed_desc(c):
+    """request list of the observed run of a NonTemplateJob (harness default when the cfg names none)"""
+    return c.get("nreq") or ("AbS" if c["job"] == "nts" else "Ab")
+
+
+def job_req(c):
+    """(required component ids, required shared ids) of the OBSERVED run: a function of the current request
+    list only, whatever the same job object was asked to do in earlier runs"""
+    if c["job"] in ("nt", "nts"):
+        d = observed_desc(c)
+        return [DESC_ID[ch] for ch in d if ch in DESC_ID], ([0] if "S" in d else [])
+    return ([A], [0]) if c["job"] in JOBS_SHARED else ([A], [])
 
 
 def model_line(c, warchs, threads):
-    req, reqs = job_req(c["job"])
+    req, reqs = job_req(c)
     parts = []
     for w in warchs:
         mask = KIND_MASK.get(w["kind"])
@@ -164,7 +186,7 @@ def run_model(drv, lines, timeout):
 
 def reference(c, warchs):
     """brute force: the (world archetype index, entity index) pairs the job must visit"""
-    req, reqs = job_req(c["job"])
+    req, reqs = job_req(c)
     sel = []
     for w in warchs:
         mask = KIND_MASK.get(w["kind"])
@@ -301,13 +323,13 @@ def patterns(size, cs):
     return ["".join(p) for p in itertools.product("01", repeat=chunks)] if chunks else ["-"]
 
 
-def n_selected(archs, job="idx"):
+def n_selected(archs, job="idx", nreq=None):
     n = 0
-    shared = job in JOBS_SHARED
+    req, reqs = job_req({"job": job, "nreq": nreq})
     for (k, size, cs, pat, ex) in archs:
-        if ex or A not in (KIND_MASK[k] or []):
+        if ex or not all(x in (KIND_MASK[k] or []) for x in req):
             continue
-        if shared and k not in KIND_SHARED:
+        if reqs and k not in KIND_SHARED:
             continue
         for j in range(size):
             ch = j // cs
@@ -680,7 +702,7 @@ def _run(ctx, exe, drv, internals, t0):
 
     def avoided(c):
         n = n_selected([(k, sz, cs if cs is not None else c["defcs"], pat, ex) for (k, sz, cs, pat, ex) in c["archs"]],
-                       c["job"])
+                       c["job"], c.get("nreq"))
         return any(KNOWN[k][0](c, n) for k in open_keys)
 
     work = []     # (label, threads, [cfgs])
@@ -780,7 +802,7 @@ def _run(ctx, exe, drv, internals, t0):
                 if fails:
                     key = known_key(ctx, c, n if w else n_selected(
                         [(k, sz, cs if cs is not None else c["defcs"], pat, ex) for (k, sz, cs, pat, ex) in c["archs"]],
-                        c["job"]), fails)
+                        c["job"], c.get("nreq")), fails)
                     if key:
                         ctx.known(key, "key=%s %s (%s)" % (key, fails[0][:160], cfg_line(c)))
                         hist["known:" + key] = hist.get("known:" + key, 0) + 1
